@@ -1001,9 +1001,11 @@ private:
 
         value_node_ptr new_node = create_insert_node(order_key);
         node_ptr curr = search_result.first;
+        // The value may have been moved into the new node, so "key" may refer to a moved-from object from now on
+        const key_type& new_key = traits_type::get_key(new_node->value());
 
         while (!try_insert(prev, new_node, curr)) {
-            search_result = search_after(prev, order_key, key);
+            search_result = search_after(prev, order_key, new_key);
             if (search_result.second) {
                 return internal_insert_return_type{ new_node, search_result.first, false };
             }
